@@ -1,13 +1,74 @@
 import OdlModel.Common
 import OdlModel.Model.Functionals
 import OdlModel.Model.FunctionalsWire
-open OdlModel OdlModel.Functionals
+import OdlModel.Model.FunctionalsLeaves
+open OdlModel OdlModel.Functionals OdlModel.FunctionalsLeaves
+
+def parseOptList (s : String) : Option (List (Option Rat)) :=
+  parseList (fun t => if t = "n" then some none else (parseRat t).map some) s
+
+/-- The parts `w<i>= f<i>= x<i>= d<i>=` (i < k) of a `sep` line. -/
+def parseParts (l : Line) : Nat → Nat → Option (List (SepPart Rat))
+  | _, 0 => some []
+  | i, k + 1 => do
+      let w ← l.rats? s!"w{i}"
+      if w.isEmpty then none
+      let fs ← l.get? s!"f{i}"
+      let (f, rest) ← parseFn w.length false 64 (fs.splitOn "|")
+      if !rest.isEmpty then none
+      let x ← vecArg l s!"x{i}" w.length
+      let d ← vecArg l s!"d{i}" w.length
+      let r ← parseParts l (i + 1) k
+      some (⟨w, f, x, d⟩ :: r)
+
+/-- Round 4 ops (leaves outside the expression language, `Model/FunctionalsLeaves.lean`):
+    `klgrad kind=kl|klcc g=<prior> x=<vec>`       → `ok g=<vec>` | `nonfinite`
+    `kldom kind=kl|klcc x=<vec>`                 → `ok inf=0|1`   (is `_call` = inf?)
+    `box w=<weights> lo=<a|n,…> hi=<b|n,…> x=…`   → `ok v=0|inf`
+    `sep k=<parts> w0= f0= x0= d0= w1= …`         → `ok v=<rat|inf|noeval> g=<vec|nograd> dv=<rat|nograd>` -/
+def handleLeaves (l : Line) : Option String := do
+  match l.op with
+  | "klgrad" => do
+      let kind ← l.get? "kind"
+      let g ← l.rats? "g"
+      let x ← vecArg l "x" g.length
+      if g.isEmpty then none
+      match kind with
+      | "kl" => some (if klGradFinite x then s!"ok g={showRatList (klGrad g x)}" else "nonfinite")
+      | "klcc" => some (if klccGradFinite x then s!"ok g={showRatList (klccGrad g x)}" else "nonfinite")
+      | _ => none
+  | "kldom" => do
+      let kind ← l.get? "kind"
+      let x ← l.rats? "x"
+      if x.isEmpty then none
+      match kind with
+      | "kl" => some s!"ok inf={if klDom x then 0 else 1}"
+      | "klcc" => some s!"ok inf={if klccDom x then 0 else 1}"
+      | _ => none
+  | "box" => do
+      let w ← l.rats? "w"
+      if w.isEmpty then none
+      let x ← vecArg l "x" w.length
+      let lo ← l.get? "lo" >>= parseOptList
+      let hi ← l.get? "hi" >>= parseOptList
+      if lo.length ≠ w.length || hi.length ≠ w.length then none
+      some s!"ok v={if boxIsInf (mkBox w lo hi x) then "inf" else "0"}"
+  | "sep" => do
+      let k ← l.nat? "k"
+      if k = 0 then none
+      let ps ← parseParts l 0 k
+      let v := if !(ps.all fun p => p.f.evaluable) then "noeval"
+               else if !(sepDom ps) then "inf" else showRat (sepValue ps)
+      if !(sepHasGrad ps) then some s!"ok v={v} g=nograd dv=nograd" else
+      some s!"ok v={v} g={showRatList (sepGrad ps)} dv={showRat (sepDeriv ps)}"
+  | _ => none
 
 /-- `val f=<expr> w=<weights> x=<vec>`            → `ok v=<rat|inf|noeval>`
     `grad f=… w=… x=…`                           → `ok g=<vec>` | `nograd`
     `deriv f=… w=… x=… d=…`                      → `ok v=<rat>` (= d.inner(grad f(x)))
     `lip f=… w=…`                                → `nan` | `inf` | `fin r=… roots=c:q;…` -/
 def handle (l : Line) : Option String := do
+  if l.op = "klgrad" || l.op = "kldom" || l.op = "box" || l.op = "sep" then handleLeaves l else
   let (o, f, n) ← parseCase l false
   match l.op with
   | "val" => do
